@@ -15,18 +15,24 @@ warnings.filterwarnings("ignore")
 
 _installed = False
 
+import contextlib
+
 try:
     from crosshair.tracers import NoTracing as _NoTracing
 except Exception:  # pragma: no cover
-    import contextlib
     _NoTracing = contextlib.nullcontext
+try:
+    from crosshair.auditwall import opened_auditwall as _opened_auditwall
+except Exception:  # pragma: no cover
+    _opened_auditwall = contextlib.nullcontext
 
 
 def untraced(fn, *args, **kwargs):
     """[decoder] harnesses: once the symbolic input has been realised nothing symbolic reaches the code
     under test, so it is run natively (CrossHair's tracer off).  The solver's job is the exhaustive
     enumeration of the inputs (models of the precondition), not the interpretation of this call."""
-    with _NoTracing():
+    # (the audit wall is opened as well: harnesses that drive the CLI write scratch files)
+    with _NoTracing(), _opened_auditwall():
         return fn(*args, **kwargs)
 
 try:  # only present in the CrossHair overlay; replay runs under plain /venv/bin/python
